@@ -235,7 +235,9 @@ def run(ctx):
     nh = ctx.n(16, 200)
     jobs = [(ctx.rng.randrange(1 << 30), "f29" if i % 8 in (0, 4) else ("inval" if i % 8 in (1, 3, 5) else "random")) for i in range(nh)]
     jobs = [(sd, "tear-revert" if (m == "random" and i % 8 == 6) else m) for i, (sd, m) in enumerate(jobs)]
-    jobs += [(ctx.rng.randrange(1 << 30), m) for m in ["tear", "tear-revert"] * ctx.n(1, 10)]
+    # tear-revert is the sharper mode (state falls back to the start of the killed invocation, the reverted project then
+    # matches the stale "valid" state): seed C05-3 showed in about one of six such sweeps
+    jobs += [(ctx.rng.randrange(1 << 30), m) for m in ["tear-revert"] * ctx.n(6, 24) + ["tear"] * ctx.n(1, 10)]
     jobs += [(ctx.rng.randrange(1 << 30), "first") for i in range(ctx.n(4, 40))]
     with ThreadPoolExecutor(max_workers=6) as ex:
         recs = list(ex.map(one_history, jobs))
